@@ -11,6 +11,8 @@ def P(race, nb, par, to, min_e, min_n, level, rule, assumptions, technique, **kw
     d.update(kw)
     return d
 
+ONE_MSG = ("one successful SendSet puts exactly one message on the wire (C08's statement): the harness correlates what the "
+           "application supplied with what is captured message by message")
 COMMON_ASSUME = [
     "verdicts are about the executions produced in this run only",
     "refipfix (own RFC 7011 reader/encoder, stdlib only) is correct; it is self-tested at start-up",
@@ -65,7 +67,7 @@ PROPS = {
              "whose templates mix forward IANA elements with their reverse (29305) twins sharing element ids: every refresh datagram must be "
              "the template sent under that id, byte for byte. Non-trivial = data message with >= 1 record or template with >= 1 enterprise "
              "field; distinct by message body.",
-             COMMON_ASSUME + ["UDP sends that the kernel refuses for datagram size are outside the library's control and only counted"],
+             COMMON_ASSUME + [ONE_MSG] + ["UDP sends that the kernel refuses for datagram size are outside the library's control and only counted"],
              "runtime monitor: independent RFC 7011 decoder/encoder over bytes captured at a raw peer socket"),
     "C08": P(False, (8, 16), 16, (900, 3600), 300, 100, "exploration",
              "one evaluation = one session of a real exporting process against a raw TCP (3/4) or UDP (1/4) peer, IPv4 and IPv6: a random "
@@ -86,7 +88,7 @@ PROPS = {
              "sent and must be the next thing the peer sees; the same refused set object is re-sent 0..2 times (an application retry) and must be "
              "refused again; accepted messages must equal refipfix's encoding of the supplied values. "
              "Non-trivial = a refused send followed by an accepted one; distinct by hash of the send classes.",
-             COMMON_ASSUME + ["an IPv4 address supplied for an ipv6Address element is not judged (net.IP treats it as its ::ffff: form)",
+             COMMON_ASSUME + [ONE_MSG] + ["an IPv4 address supplied for an ipv6Address element is not judged (net.IP treats it as its ::ffff: form)",
                               "a data set whose template send itself failed is a gray zone and is not generated"],
              "runtime monitor: expected-stream model (concatenation of accepted messages) over bytes captured at a raw peer, marker messages"),
     "C03": P(False, (8, 16), 16, (1200, 5400), 100000, 50000, "exploration",
@@ -167,7 +169,7 @@ PROPS = {
              "re-read after the next deliveries: its content must not change once delivered. "
              "Non-trivial = delivered and (>= 2 fields or >= 2 records or a boundary length); distinct by (config, elements, values).",
 
-             COMMON_ASSUME + ["pion/dtls drops records above its 8 KiB receive buffer while Write succeeds: larger DTLS messages are sent, compared if they arrive, only counted if not",
+             COMMON_ASSUME + [ONE_MSG] + ["pion/dtls drops records above its 8 KiB receive buffer while Write succeeds: larger DTLS messages are sent, compared if they arrive, only counted if not",
                               "a 65535-byte value cannot travel end to end (header + set header + prefix leave 65512): that boundary is C15's and C09's"],
              "runtime monitor: sent-vs-delivered comparison over real sockets on 8 transport configurations; race detector"),
     "C12": P(True, (16, 16), 16, (1800, 7200), 60, 20, "exploration",
@@ -196,7 +198,7 @@ PROPS = {
              "SendSet after it fails, peer stream == acknowledged sends (+ at most one failed send or a prefix of it), well-formed datagrams. "
              "At the end no goroutine with a pkg/exporter frame may remain. Non-trivial = application data fell between two datagrams of one "
              "refresh round / close noticed / a Close raced acknowledged sends.",
-             COMMON_ASSUME + ["rounds are recognised structurally (a template id repeating starts a new round), not by wall-clock gaps",
+             COMMON_ASSUME + [ONE_MSG] + ["rounds are recognised structurally (a template id repeating starts a new round), not by wall-clock gaps",
                               "loss of a datagram on loopback makes a refresh session inconclusive"],
              "runtime monitor: per-datagram parser + refresh-round model + prefix-of-acknowledged-sends model at a raw peer; goroutine leak probe; race detector"),
     "C05": P(False, (8, 16), 16, (1200, 5400), 8000, 4000, "exploration",
